@@ -10,6 +10,7 @@
 #include "auto_uids.h"
 #include "auto_users.h"
 #include "env.h"
+#include "byte.h"
 
 void initialize(argc,argv)
 int argc;
@@ -77,7 +78,8 @@ int len;
 	 switch(s[k])
 	  {
 	   case 'Z': case 'D': case 'K':
-             substdio_puts(ss,s + k + 1);
+             /* the child's output need not end with a NUL: stay inside it */
+             substdio_put(ss,s + k + 1,byte_chr(s + k + 1,len - k - 1,0));
 	  }
      break;
     }
